@@ -1860,7 +1860,11 @@ psRes_t tls13ParseCertificateAuthorities(ssl_t *ssl,
         }
     }
 
-    /* Allocate space for the issuer names and their lengths.  */
+    /* Allocate space for the issuer names and their lengths.  A second
+       certificate_authorities extension in the same message replaces the
+       list of the first one. */
+    psFree(keySelect->caNames, ssl->sPool);
+    psFree(keySelect->caNameLens, ssl->sPool);
     keySelect->nCas = nCas;
     keySelect->caNames = psCalloc(pool, nCas, sizeof(keySelect->caNames[0]));
     keySelect->caNameLens = psCalloc(pool, nCas, sizeof(keySelect->caNameLens[0]));
